@@ -375,10 +375,11 @@ fn histories_over(run: &Run, st: &mut Stats, menu: &[(&str, usize, Mode)], pats:
 /// the reference matcher.
 fn cross_regex_histories(run: &Run, st: &mut Stats) {
     let menu: Vec<(&str, &str, &str)> = vec![
-        ("(\\u017f)\\1", "iu", "\u{17f}s \u{17f}\u{17f}"),
-        ("(\\u017f)\\1", "i", "\u{17f}s \u{17f}\u{17f}"),
-        ("(k)\\1", "iu", "k\u{212A} kK"),
-        ("(k)\\1", "i", "k\u{212A} kK"),
+        // the second match needs the folding mode again (an iterator resumed after another regex searched)
+        ("(\\u017f)\\1", "iu", "\u{17f}s \u{17f}S s\u{17f}"),
+        ("(\\u017f)\\1", "i", "\u{17f}s \u{17f}S s\u{17f}"),
+        ("(k)\\1", "iu", "k\u{212A} \u{212A}k kK"),
+        ("(k)\\1", "i", "k\u{212A} \u{212A}k kK"),
         ("x", "", "xyz x"),
         ("\\bs\\b", "iu", "\u{17f} s"),
         ("\\bs\\b", "i", "\u{17f} s"),
@@ -508,28 +509,42 @@ fn buffer_reuse_histories(run: &Run, st: &mut Stats) {
 /// can see races inside one interpreted instruction (e.g. lazy initialisation on first use), which
 /// the instruction-granularity scheduler cannot produce. A silent run proves nothing.
 fn free_running_monitor(run: &Run, st: &mut Stats, trials: usize) {
-    let cases = [("^\\p{Lu}+$", "u", "HELLOWORLDhELLOWORLD"), ("^\\p{Lu}+$", "u", "ΑΒΓΔΕΖΗΘHELLO"), ("^[\\p{Lu}\\p{Nd}]+$", "u", "ΑΒΓΔoΖΗΘ"), ("\\{[^}]*\\}", "", "{x} and {y} now"), ("[a-zé]+", "", "café au lait"), ("(a+)+b", "", "aaab aab"), ("\\bk\\w*", "iu", "Kelvin \u{212A}k k"), ("(?<=\\d)x|y$", "m", "1x2x\ny")];
+    // two haystacks per case where the second differs: odd threads search the second (threads that hit
+    // different parts of one shared table at the same moment)
+    let alt: std::collections::HashMap<&str, &str> = [("HELLOWORLDhELLOWORLD", "ΑΒΓΔΕΖΗΘΙΚΛΜΝΞΟΠΡΣΤΥΦΧΨΩ"), ("ΑΒΓΔoΖΗΘ", "HELLOWORLDHELLOWORLD")].into_iter().collect();
+    let cases = [("^\\p{Lu}+$", "u", "HELLOWORLDhELLOWORLD"), ("^[\\p{Lu}\\p{Nd}]+$", "u", "ΑΒΓΔoΖΗΘ"), ("\\{[^}]*\\}", "", "{x} and {y} now"), ("[a-zé]+", "", "café au lait"), ("(a+)+b", "", "aaab aab"), ("\\bk\\w*", "iu", "Kelvin \u{212A}k k"), ("(?<=\\d)x|y$", "m", "1x2x\ny")];
     for (p, f, h) in cases {
         let expected: Vec<SMatch> = regress::Regex::with_flags(p, f).unwrap().find_iter(h).map(|m| SMatch::from(&m)).collect();
+        let h2: &str = alt.get(h).copied().unwrap_or(h);
+        let expected2: Vec<SMatch> = regress::Regex::with_flags(p, f).unwrap().find_iter(h2).map(|m| SMatch::from(&m)).collect();
+        let rounds = if h2 != h { 200 } else { 1 };
         let mut wrong = 0u64;
         let mut first_wrong: Option<Vec<SMatch>> = None;
         for _ in 0..trials {
             let re = Arc::new(regress::Regex::with_flags(p, f).unwrap());
             let bar = Arc::new(std::sync::Barrier::new(4));
             let hs: Vec<_> = (0..4)
-                .map(|_| {
+                .map(|ti| {
                     let re = re.clone();
                     let bar = bar.clone();
+                    let (text, exp) = if ti % 2 == 1 { (h2, expected2.clone()) } else { (h, expected.clone()) };
                     std::thread::spawn(move || {
                         bar.wait();
-                        re.find_iter(h).map(|m| SMatch::from(&m)).collect::<Vec<SMatch>>()
+                        let mut bad: Option<Vec<SMatch>> = None;
+                        for _ in 0..rounds {
+                            let r = re.find_iter(text).map(|m| SMatch::from(&m)).collect::<Vec<SMatch>>();
+                            if r != exp && bad.is_none() {
+                                bad = Some(r);
+                            }
+                        }
+                        bad
                     })
                 })
                 .collect();
             for hd in hs {
                 let r = hd.join().unwrap_or_default();
-                st.add("monitor_searches", 1);
-                if r != expected {
+                st.add("monitor_searches", rounds as u64);
+                if let Some(r) = r {
                     wrong += 1;
                     if first_wrong.is_none() {
                         first_wrong = Some(r);
